@@ -84,7 +84,56 @@ func c04Groups(tier string) []core.Group {
 			}})
 		}
 	}
+	// every view of C02's slicing space (complete argument sets, nested slices of slices of transposes), replayed with C02's
+	// own verdicts discarded: its copies have to be logically equal to it (quick: every 4th group of C02; thorough: all)
+	every := 4
+	if tier == "thorough" {
+		every = 1
+	}
+	if p := Get("C02"); p != nil {
+		for gi, g := range p.Groups("quick") {
+			if gi%every != 0 {
+				continue
+			}
+			g := g
+			gs = append(gs, core.Group{Key: "copies-of-sliced/" + g.Key, Run: func(c *core.Ctx) { c04CopiesOfSliced(c, g) }})
+		}
+	}
 	return gs
+}
+
+func c04CopiesOfSliced(c *core.Ctx, g core.Group) {
+	seen := 0
+	c02OnView = func(vd *tensor.Dense, vm *model.ND, caseKey string, desc map[string]interface{}) {
+		seen++
+		for _, cp := range []struct {
+			name string
+			do   func() *tensor.Dense
+		}{
+			{"Materialize", func() *tensor.Dense { r, _ := vd.Materialize().(*tensor.Dense); return r }},
+			{"Clone", func() *tensor.Dense { r, _ := vd.Clone().(*tensor.Dense); return r }},
+		} {
+			var r *tensor.Dense
+			if p, msg := core.Catch(func() { r = cp.do() }); p {
+				c.Violation(core.Sig(cp.name, "sliced-space", "panic"), "copies-of-sliced/"+caseKey, desc, "a copy", msg)
+				continue
+			}
+			if r == nil {
+				continue
+			}
+			c.Eval(core.Sig(cp.name, "sliced-space", fmt.Sprint(len(vm.Shape))), len(vm.V) > 1)
+			if e := gen.ReadMatches(r, vm); e != nil {
+				c.Violation(core.Sig(cp.name, "sliced-space", "copy-differs"), "copies-of-sliced/"+caseKey, desc, "logically equal copy", e.Error())
+			}
+		}
+	}
+	defer func() { c02OnView = nil }()
+	sub := core.NewMutedCtx(c, "C02", g.Key)
+	if p, _ := core.Catch(func() { g.Run(sub) }); p {
+		c.Inconclusive("replay-of-C02-panicked")
+	}
+	c02OnView = nil
+	c.Extra("views_copied", seen)
 }
 
 func c04Operand(c *core.Ctx, lay string, t reflect.Type, shape []int) *gen.Operand {
